@@ -76,7 +76,7 @@ theorem oneShot_once_never_early' {s : State} (h : Inv s) (τ : Timer) (hτ : τ
 
 theorem sendAfter_fires' {s : State} (h : Inv s) (i : Nat) (τ : Timer) (a : Nat)
     (hi : s.timers[i]? = some τ) (hk : τ.kind = .sendAfter) (hp : τ.res = .pending)
-    (ha : τ.armed = some a) (hd : wheelDeadline a τ.period ≤ s.now) :
+    (ha : τ.armed = some a) (hd : wheelDeadline a τ.period ≤ s.now) (hty : τ.typed = true) :
     ∃ τ', (step s (.fire i)).timers[i]? = some τ' ∧ τ'.sentAt = [s.now] ∧
       (s.target.accepts = true → τ'.res = .ok ∧ (step s (.fire i)).target.mbox = s.target.mbox ++ [(i, 1)]) ∧
       (s.target.accepts = false → τ'.res = .err ∧ (step s (.fire i)).target.mbox = s.target.mbox) := by
@@ -91,7 +91,7 @@ theorem sendAfter_fires' {s : State} (h : Inv s) (i : Nat) (τ : Timer) (a : Nat
     unfold fireOne
     simp only [hp, ne_eq, not_true_eq_false, ↓reduceIte, harm, ha, Option.getD_some]
     unfold fireArmed
-    simp [hk, hdl, hs]
+    simp [hk, hdl, hs, Timer.canSend, hty]
   rw [hf]
   cases hacc : s.target.accepts with
   | true =>
@@ -107,6 +107,11 @@ theorem frozen_step (s : State) (i : Nat) (τ : Timer) (hi : s.timers[i]? = some
   | create k p =>
     have e : step s (.create k p) =
         { s with timers := s.timers ++ [{ kind := k, period := p, created := s.now }] } := rfl
+    rw [e]
+    simp only [List.getElem?_append_left (getElem?_lt hi)]; exact hi
+  | createX k p =>
+    have e : step s (.createX k p) =
+        { s with timers := s.timers ++ [{ kind := k, period := p, created := s.now, typed := false }] } := rfl
     rw [e]
     simp only [List.getElem?_append_left (getElem?_lt hi)]; exact hi
   | tick d => exact hi
@@ -212,9 +217,14 @@ theorem exit_reason' {s : State} (h : Inv s) (r : Reason) (te : Nat) (he : s.tar
   · intro e; subst e; exact hr
 
 theorem handle_reports_send' {s : State} (h : Inv s) (τ : Timer) (hτ : τ ∈ s.timers)
-    (hk : τ.kind = .sendAfter) :
+    (hk : τ.kind = .sendAfter) (hty : τ.typed = true) :
     (τ.res = .ok → ∀ tc, s.target.closedAt = some tc → ∀ t ∈ τ.sentAt, t ≤ tc) ∧
     (τ.res = .err → ∃ tc, s.target.closedAt = some tc ∧ ∀ t ∈ τ.sentAt, tc ≤ t) :=
-  (h.tinv τ hτ).accept hk
+  (h.tinv τ hτ).accept hk hty
+
+theorem mistyped' {s : State} (h : Inv s) (τ : Timer) (hτ : τ ∈ s.timers)
+    (hty : τ.typed = false) (hs : τ.kind.sends = true) :
+    (τ.res = .pending → τ.sentAt = []) ∧ τ.sentAt.length ≤ 1 ∧ (τ.kind = .sendAfter → τ.res ≠ .ok) :=
+  (h.tinv τ hτ).untyped hty hs
 
 end Timers
